@@ -105,8 +105,9 @@ ObsGet(o, d, flt, res, fs, snap) ==
                               (snap[d] = cached \/ snap[d] = Ent(seen, o.now, o.pub[d].pol))),
                "ValidEntryDamaged")
       o11 == V(o10, \A x \in DOMAIN snap : x # d => snap[x] = o.snap[x], "OtherDomainTouched")
-      o12 == [o11 EXCEPT !.fetched[d] = fetched2, !.snap = snap]
-  IN IF flt = "ok" THEN o12 ELSE Dirty(o12, d)
+      \* a call that crashed answered nothing: only the crash is held against it
+      o12 == [(IF res.kind = "panic" THEN o2 ELSE o11) EXCEPT !.fetched[d] = fetched2, !.snap = snap]
+  IN IF flt = "ok" /\ res.kind # "panic" THEN o12 ELSE Dirty(o12, d)
 
 (***************************************************************************)
 (* One run of the refresh loop.  plan[d] is the fault applied to d.        *)
